@@ -71,3 +71,18 @@ package cache
 //@   safety off
 //@   nocall [C17:evicting-a-namespace-drops-no-reference-it-does-not-hold] (*Node).unRefInternal
 //@   nocall [C17:evicting-a-namespace-drops-no-reference-it-does-not-hold-2] (*Node).unRefExternal
+
+// C17 / C07 / C19: a deletion callback handed to Delete is never dropped - also when the cache is already closed (no
+// node exists any more, so "executed if such node doesn't exist" applies). The table cache is closed before the last
+// obsolete-table removals of a shutdown arrive; dropping their callbacks left obsolete tables in the directory after a
+// clean Close, and Recover, which trusts the directory, brought deleted keys back (F34).
+//@ ghost var gDelRan bool
+//@ func (*Cache).Delete
+//@   props C17 C07 C19
+//@   safety off
+//@   at entry
+//@     ghost gDelRan = false
+//@   at before stmt delFunc()#1
+//@     ghost gDelRan = true
+//@   at before stmt return false#1
+//@     assert [C07,C17,C19:a-closed-cache-still-runs-the-deletion-callback] delFunc == nil || gDelRan
